@@ -374,6 +374,16 @@ impl Database {
         self.external_functions.push(f)
     }
 
+    /// Replace the external function registered under `id`. Rules that call `id` pick up the
+    /// new function the next time they run.
+    pub fn replace_external_function(
+        &mut self,
+        id: ExternalFunctionId,
+        f: Box<dyn ExternalFunction + 'static>,
+    ) {
+        self.external_functions.insert(id, f);
+    }
+
     /// Free an existing external function. Make sure not to use `id` afterwards.
     pub fn free_external_function(&mut self, id: ExternalFunctionId) {
         self.external_functions.take(id);
